@@ -483,9 +483,14 @@ impl ProtocolState {
     ensures r == (self.operations@.contains_key(operation_id) && is_qos_publish(*self.operations@[operation_id].packet, qos)),
 //@end
 
-//@fn gneiss-mqtt/src/protocol.rs ProtocolState::handle_puback props=C01,C11,C06
+//@fn gneiss-mqtt/src/protocol.rs ProtocolState::handle_puback props=C01,C11,C06,C14
     requires old(self).wf(), *packet is Puback,
     ensures final(self).wf(),
+        // C14: received traffic never moves the keep-alive schedule (only the client's own transmissions and the CONNACK do)
+        final(self).ping_timeout_timepoint == old(self).ping_timeout_timepoint,
+        // (completing the acknowledged operation may move the next ping later, to the time that operation was written + K: ping_extension_result)
+        old(self).next_ping_timepoint matches Some(a) ==> (final(self).next_ping_timepoint matches Some(b) && b.nanos >= a.nanos),
+        old(self).next_ping_timepoint is None ==> final(self).next_ping_timepoint is None,
         hs_ok(*old(self)) ==> hs_ok(*final(self)),
         final(self).next_operation_id == old(self).next_operation_id,
         completion_frame(*old(self), *final(self)),
@@ -500,9 +505,14 @@ impl ProtocolState {
         old(self).cur_ok() && (old(self).current_operation matches Some(c) ==> !(old(self).pending_publish_operations@.contains_key(packet->Puback_0.packet_id) && old(self).pending_publish_operations@[packet->Puback_0.packet_id] == c)) ==> final(self).cur_ok(),
 //@end
 
-//@fn gneiss-mqtt/src/protocol.rs ProtocolState::handle_pubcomp props=C01,C04,C11,C06
+//@fn gneiss-mqtt/src/protocol.rs ProtocolState::handle_pubcomp props=C01,C04,C11,C06,C14
     requires old(self).wf(), *packet is Pubcomp,
     ensures final(self).wf(),
+        // C14: received traffic never moves the keep-alive schedule (only the client's own transmissions and the CONNACK do)
+        final(self).ping_timeout_timepoint == old(self).ping_timeout_timepoint,
+        // (completing the acknowledged operation may move the next ping later, to the time that operation was written + K: ping_extension_result)
+        old(self).next_ping_timepoint matches Some(a) ==> (final(self).next_ping_timepoint matches Some(b) && b.nanos >= a.nanos),
+        old(self).next_ping_timepoint is None ==> final(self).next_ping_timepoint is None,
         hs_ok(*old(self)) ==> hs_ok(*final(self)),
         final(self).next_operation_id == old(self).next_operation_id,
         completion_frame(*old(self), *final(self)),
@@ -527,9 +537,14 @@ impl ProtocolState {
         proof { assert(self.operations@ =~= old(self).operations@); }
 //@end
 
-//@fn gneiss-mqtt/src/protocol.rs ProtocolState::handle_suback props=C01,C11,C06
+//@fn gneiss-mqtt/src/protocol.rs ProtocolState::handle_suback props=C01,C11,C06,C14
     requires old(self).wf(), *packet is Suback,
     ensures final(self).wf(),
+        // C14: received traffic never moves the keep-alive schedule (only the client's own transmissions and the CONNACK do)
+        final(self).ping_timeout_timepoint == old(self).ping_timeout_timepoint,
+        // (completing the acknowledged operation may move the next ping later, to the time that operation was written + K: ping_extension_result)
+        old(self).next_ping_timepoint matches Some(a) ==> (final(self).next_ping_timepoint matches Some(b) && b.nanos >= a.nanos),
+        old(self).next_ping_timepoint is None ==> final(self).next_ping_timepoint is None,
         hs_ok(*old(self)) ==> hs_ok(*final(self)),
         final(self).next_operation_id == old(self).next_operation_id,
         completion_frame(*old(self), *final(self)),
@@ -545,9 +560,14 @@ impl ProtocolState {
         }),
 //@end
 
-//@fn gneiss-mqtt/src/protocol.rs ProtocolState::handle_unsuback props=C01,C11,C06
+//@fn gneiss-mqtt/src/protocol.rs ProtocolState::handle_unsuback props=C01,C11,C06,C14
     requires old(self).wf(), *packet is Unsuback,
     ensures final(self).wf(),
+        // C14: received traffic never moves the keep-alive schedule (only the client's own transmissions and the CONNACK do)
+        final(self).ping_timeout_timepoint == old(self).ping_timeout_timepoint,
+        // (completing the acknowledged operation may move the next ping later, to the time that operation was written + K: ping_extension_result)
+        old(self).next_ping_timepoint matches Some(a) ==> (final(self).next_ping_timepoint matches Some(b) && b.nanos >= a.nanos),
+        old(self).next_ping_timepoint is None ==> final(self).next_ping_timepoint is None,
         hs_ok(*old(self)) ==> hs_ok(*final(self)),
         final(self).next_operation_id == old(self).next_operation_id,
         completion_frame(*old(self), *final(self)),
@@ -563,9 +583,14 @@ impl ProtocolState {
         }),
 //@end
 
-//@fn gneiss-mqtt/src/protocol.rs ProtocolState::handle_pubrec props=C01,C04,C11,C06
+//@fn gneiss-mqtt/src/protocol.rs ProtocolState::handle_pubrec props=C01,C04,C11,C06,C14
     requires old(self).wf(), *packet is Pubrec,
     ensures final(self).wf(),
+        // C14: received traffic never moves the keep-alive schedule (only the client's own transmissions and the CONNACK do)
+        final(self).ping_timeout_timepoint == old(self).ping_timeout_timepoint,
+        // (a failing PUBREC completes the publish: that may move the next ping later, to the time the publish was written + K: ping_extension_result)
+        old(self).next_ping_timepoint matches Some(a) ==> (final(self).next_ping_timepoint matches Some(b) && b.nanos >= a.nanos),
+        old(self).next_ping_timepoint is None ==> final(self).next_ping_timepoint is None,
         hs_ok(*old(self)) ==> hs_ok(*final(self)),
         final(self).next_operation_id == old(self).next_operation_id,
         ({
@@ -610,9 +635,11 @@ impl ProtocolState {
         proof { assert(self.operations@ =~= old(self).operations@); }
 //@end
 
-//@fn gneiss-mqtt/src/protocol.rs ProtocolState::handle_pubrel props=C05,C11
+//@fn gneiss-mqtt/src/protocol.rs ProtocolState::handle_pubrel props=C05,C11,C14
     requires old(self).wf(), *packet is Pubrel, opid_budget(*old(self), 1),
     ensures final(self).wf(),
+        // C14: received traffic never moves the keep-alive schedule (only the client's own transmissions and the CONNACK do)
+        final(self).next_ping_timepoint == old(self).next_ping_timepoint, final(self).ping_timeout_timepoint == old(self).ping_timeout_timepoint,
         hs_ok(*old(self)) ==> hs_ok(*final(self)),
         old(self).next_operation_id <= final(self).next_operation_id <= old(self).next_operation_id + 1,
         ({
@@ -636,9 +663,11 @@ impl ProtocolState {
         }),
 //@end
 
-//@fn gneiss-mqtt/src/protocol.rs ProtocolState::handle_publish props=C05,C11
+//@fn gneiss-mqtt/src/protocol.rs ProtocolState::handle_publish props=C05,C11,C14
     requires old(self).wf(), *packet is Publish, opid_budget(*old(self), 1),
     ensures final(self).wf(),
+        // C14: received traffic never moves the keep-alive schedule (only the client's own transmissions and the CONNACK do)
+        final(self).next_ping_timepoint == old(self).next_ping_timepoint, final(self).ping_timeout_timepoint == old(self).ping_timeout_timepoint,
         hs_ok(*old(self)) ==> hs_ok(*final(self)),
         old(self).next_operation_id <= final(self).next_operation_id <= old(self).next_operation_id + 1,
         final(context).current_time == old(context).current_time,
@@ -686,9 +715,11 @@ impl ProtocolState {
         }),
 //@end
 
-//@fn gneiss-mqtt/src/protocol.rs ProtocolState::handle_disconnect props=C11
+//@fn gneiss-mqtt/src/protocol.rs ProtocolState::handle_disconnect props=C11,C14
     requires *packet is Disconnect,
     ensures *final(self) == *old(self), r is Err,
+        // C14: received traffic never moves the keep-alive schedule (only the client's own transmissions and the CONNACK do)
+        final(self).next_ping_timepoint == old(self).next_ping_timepoint, final(self).ping_timeout_timepoint == old(self).ping_timeout_timepoint,
         hs_ok(*old(self)) ==> hs_ok(*final(self)),
         final(self).next_operation_id == old(self).next_operation_id,
         final(context).current_time == old(context).current_time,
@@ -698,8 +729,10 @@ impl ProtocolState {
             ==> final(context).packet_events@ == old(context).packet_events@,
 //@end
 
-//@fn gneiss-mqtt/src/protocol.rs ProtocolState::handle_auth props=C11
+//@fn gneiss-mqtt/src/protocol.rs ProtocolState::handle_auth props=C11,C14
     ensures *final(self) == *old(self), r is Err, final(_arg2).packet_events@ == old(_arg2).packet_events@, final(_arg2).current_time == old(_arg2).current_time,
+        // C14: received traffic never moves the keep-alive schedule (only the client's own transmissions and the CONNACK do)
+        final(self).next_ping_timepoint == old(self).next_ping_timepoint, final(self).ping_timeout_timepoint == old(self).ping_timeout_timepoint,
         hs_ok(*old(self)) ==> hs_ok(*final(self)),
         final(self).next_operation_id == old(self).next_operation_id,
 //@end
